@@ -453,7 +453,7 @@ def split(seq, pts):
 @st.composite
 def recipes(draw, spec, max_rows=12, reload_ok=True, scale_ok=True, focus=False):
     """How to reach a state of `spec`: fills, an optional merge with a second filled tree, an optional scaling,
-    an optional copy(), and optionally a JSON reload (immutable form)."""
+    an optional copy(), an optional pickle round trip, and optionally a JSON reload (immutable form)."""
     stream, exactish = draw(streams(spec, max_rows=max_rows, focus=focus))
     rec = {"fills": [[r, w] for r, w in stream], "exactish": exactish}
     if draw(st.integers(0, 3)) == 0:
@@ -463,6 +463,8 @@ def recipes(draw, spec, max_rows=12, reload_ok=True, scale_ok=True, focus=False)
         rec["scale"] = draw(st.sampled_from((2.0, 0.5, 3.0)))
     if draw(st.integers(0, 5)) == 0:
         rec["copy"] = True
+    if draw(st.integers(0, 5)) == 0:
+        rec["pickle"] = True  # an unpickled object is a first-class one (its functions are copies, not the originals)
     if reload_ok and draw(st.integers(0, 4)) == 0:
         rec["reload"] = True
     return rec
